@@ -224,3 +224,6 @@ def run(ctx):
     # a directory entry names exactly the bytes of its stream: count header, array and entry size agree (same rule instance as C01/count-array)
     from rules import c01 as _c01c
     _c01c.rule_count_array(ctx, R="C10/count-array")
+    # every flush hands the destination exactly the pending bytes and records how far it got (rules/families.py, destination family)
+    from rules import families as _famd2
+    _famd2.destination(ctx, "C10")
